@@ -187,7 +187,7 @@ def run_readers(ctx, own_kinds, what, note, nontrivial_desc):
     proof_broken, rep, driver = build_common(ctx)
     harness = build_harness()
     quick = ctx.tier == "quick"
-    ncases = 40 if quick else 400
+    ncases = 40 if quick else 300
     iters = 150 if quick else 800
     scheds = ["pct", "random"]
     size = "quick" if quick else "thorough"
